@@ -33,7 +33,7 @@ func C15(c *Ctx) {
 	r.Explanation = "(A7 coverage agreement) per module: every store section written at run time (handlers, ante, begin/end block) is also written by genesis import, and is read by genesis export or is a derived section that import rebuilds under the stated guard (the enterprise raised/accepted queues from the order status); " +
 		"(literal completeness) every keyed struct literal of a module type built on an import/export route names every field of that type, and each imported record field comes from the like-named genesis field; exported in-state counters are recomputed from the exported records (len, first element); " +
 		"(A5) the export caps of both record modules are the constant 20000 and are what the reverse iteration stops at; (A8) import drops no error of a state setter (incl. SetParams); (A2) import asserts escrow balance == holdings for the enterprise and stream accounts; (A5) the four modules are in the init/export genesis order and implement InitGenesis/ExportGenesis. Byte-identical round trip and behavioural equivalence are not decided."
-	r.Rules = []string{"A7.section-coverage", "A7.derived-queues", "A7.literal-completeness", "A7.import-fields", "A7.export-counters", "A5.export-cap", "A8.import-errors", "A2.genesis-balance", "A5.genesis-order"}
+	r.Rules = []string{"A7.section-coverage", "A7.derived-queues", "A7.literal-completeness", "A7.import-fields", "A7.export-counters", "A7.export-fields", "A5.export-cap", "A8.import-errors", "A2.genesis-balance", "A5.genesis-order"}
 	r.Trusted = []string{"module manager runs InitGenesis/ExportGenesis in the configured order", "protobuf JSON round trip of the genesis document"}
 	r.NotDecided = []string{"byte-identical re-export", "behavioural equivalence of the imported chain", "registered invariants holding after import (numeric)"}
 
@@ -95,6 +95,9 @@ func C15(c *Ctx) {
 	}
 	exportCaps(c)
 	exportCounters(c)
+	exportRecordFields(c)
+	exportSections(c)
+	exportGenesisArgs(c, "A7.export-fields", false)
 	genesisBalance(c, "enterprise")
 	genesisBalance(c, "stream")
 	genesisOrder(c)
@@ -283,7 +286,11 @@ func exportCaps(c *Ctx) {
 }
 
 // exportCounters: exported NumBlocks/NumInState = len(exported records); LowestHeight/FirstIdInState = first exported element.
-func exportCounters(c *Ctx) {
+func exportCounters(c *Ctx) { exportCountersRule(c, "", nil) }
+
+// exportCountersRule checks the exported registration fields; with a non-nil `only` set it is
+// restricted to those fields and reports under `rule` (used by C07 for the cursor field).
+func exportCountersRule(c *Ctx, rule string, only map[string]bool) {
 	w, r := c.W, c.R
 	for _, rm := range recMods {
 		n := 0
@@ -308,6 +315,22 @@ func exportCounters(c *Ctx) {
 							continue
 						}
 						v := w.ExprOf(st.Val)
+						if only != nil && !only[fname] {
+							continue
+						}
+						if fname != rm.Count && fname != rm.Lowest && strings.HasSuffix(ptrElem(fa.X.Type()).String(), "/x/"+rm.M+"/types."+regTypeName(rm)) {
+							// every other exported registration field is the stored registration's like-named field
+							n++
+							ok := v.Op == "field" && v.Name == fname && v.Args[0].Op == "elem" && w.Expand(v.Args[0].Args[0], 1).Any(func(x *ir.Expr) bool {
+								return x.Op == "call" && x.Callee != nil && reachesEffect(c, x.Callee, func(e ir.Effect) bool { return e.Kind == "StoreIter" && e.Section == rm.SecReg })
+							})
+							rl := "A7.export-fields"
+							if rule != "" {
+								rl = rule
+							}
+							r.Require(ok, rl, rm.M+"."+fname, pos(c, in), "exported registration field "+fname+" is the stored registration's "+fname, fname+" = "+v.String())
+							continue
+						}
 						switch fname {
 						case rm.Count:
 							n++
@@ -335,7 +358,11 @@ func exportCounters(c *Ctx) {
 				}
 			}
 		}
-		r.Floor("recomputed export counters of "+rm.M, n, 2)
+		if only == nil {
+			r.Floor("exported registration fields checked in "+rm.M, n, 8)
+		} else {
+			r.Floor("exported cursor fields checked in "+rm.M, n, 1)
+		}
 	}
 }
 
@@ -409,4 +436,192 @@ func genesisOrder(c *Ctx) {
 		}
 	}
 	r.Require(setOf(lists["SetOrderBeginBlockers"]...)["enterprise"], "A5.genesis-order", "begin-blockers|enterprise", "app/app.go", "the enterprise begin blocker is scheduled", fmt.Sprintf("%v", lists["SetOrderBeginBlockers"]))
+}
+
+func regTypeName(rm recMod) string {
+	if rm.M == "wrkchain" {
+		return "WrkChain"
+	}
+	return "Beacon"
+}
+
+// exportRecordFields: the compact export record copies each stored record field (He<-Height ...).
+func exportRecordFields(c *Ctx) {
+	w, r := c.W, c.R
+	rename := map[string]string{"He": "Height", "Bh": "Blockhash", "Ph": "Parenthash", "H1": "Hash1", "H2": "Hash2", "H3": "Hash3", "St": "SubTime", "Id": "TimestampId", "T": "SubmitTime", "H": "Hash"}
+	for _, rm := range recMods {
+		n := 0
+		for _, root := range w.Roots["EXPORTGEN:"+rm.M] {
+			for f := range w.Reachable([]*ssa.Function{root}) {
+				if ir.ModuleOf(f) != rm.M || w.IsGenerated(f) {
+					continue
+				}
+				for _, b := range f.Blocks {
+					for _, in := range b.Instrs {
+						st, ok := in.(*ssa.Store)
+						if !ok {
+							continue
+						}
+						fa, ok := st.Addr.(*ssa.FieldAddr)
+						if !ok || !strings.Contains(ptrElem(fa.X.Type()).String(), "GenesisExport") {
+							continue
+						}
+						fname := ir.FieldName(fa.X.Type(), fa.Field)
+						want, known := rename[fname]
+						if !known {
+							continue
+						}
+						n++
+						v := w.ExprOf(st.Val)
+						ok2 := v.Op == "field" && v.Name == want && (v.Args[0].Op == "param" || v.Args[0].Op == "decode" || v.Args[0].Op == "state")
+						r.Require(ok2, "A7.export-fields", rm.M+"|record."+fname, pos(c, in), "exported record field "+fname+" is the stored record's "+want, fname+" = "+v.String())
+					}
+				}
+			}
+		}
+		fl := map[string]int{"wrkchain": 7, "beacon": 3}
+		r.Floor("exported record fields of "+rm.M, n, fl[rm.M])
+	}
+}
+
+// exportSections: each field of the exported enterprise GenesisState is read from its own section.
+func exportSections(c *Ctx) {
+	w, r := c.W, c.R
+	want := map[string]string{"Params": secEntParams, "StartingPurchaseOrderId": secEntHigh, "PurchaseOrders": secPO, "LockedUnd": secLocked, "TotalLocked": secTotLocked, "Whitelist": secWhitelist, "TotalSpent": secTotSpent, "SpentEfund": secSpent}
+	n := 0
+	for _, root := range w.Roots["EXPORTGEN:enterprise"] {
+		for f := range w.Reachable([]*ssa.Function{root}) {
+			if ir.ModuleOf(f) != "enterprise" || !strings.Contains(fn(f), "ExportGenesis") {
+				continue
+			}
+			for _, b := range f.Blocks {
+				for _, in := range b.Instrs {
+					st, ok := in.(*ssa.Store)
+					if !ok {
+						continue
+					}
+					fa, ok := st.Addr.(*ssa.FieldAddr)
+					if !ok || !strings.HasSuffix(ptrElem(fa.X.Type()).String(), "x/enterprise/types.GenesisState") {
+						continue
+					}
+					fname := ir.FieldName(fa.X.Type(), fa.Field)
+					sec, known := want[fname]
+					if !known {
+						r.Bad("A7.export-fields", "enterprise|GenesisState."+fname, pos(c, in), "every field of the exported enterprise genesis has a specified source section", "unknown field "+fname)
+						continue
+					}
+					n++
+					v := w.ExprOf(st.Val)
+					src := v
+					if src.Op == "res" {
+						src = src.Args[0]
+					}
+					ok2 := false
+					if src.Op == "call" && src.Callee != nil {
+						secs := map[string]bool{}
+						for g := range w.Reachable([]*ssa.Function{src.Callee}) {
+							for _, e := range w.EffectsOf(g) {
+								if (e.Kind == "StoreRead" || e.Kind == "StoreIter") && strings.HasPrefix(e.Section, "x/enterprise/types.") && e.Section != secEntParams {
+									secs[e.Section] = true
+								}
+								if e.Section == secEntParams && sec == secEntParams {
+									secs[e.Section] = true
+								}
+							}
+						}
+						ok2 = secs[sec] && len(secs) == 1
+					}
+					r.Require(ok2, "A7.export-fields", "enterprise|GenesisState."+fname, pos(c, in), "exported "+fname+" is read from section "+sec+" only", fname+" = "+v.String())
+				}
+			}
+		}
+	}
+	r.Floor("exported enterprise genesis fields", n, 8)
+}
+
+// exportGenesisArgs: what ExportGenesis hands to NewGenesisState comes from the right sections:
+// the id counter field from the counter section (not from the registrations), params from params.
+func exportGenesisArgs(c *Ctx, rule string, onlyStartID bool) {
+	w, r := c.W, c.R
+	for _, m := range []string{"wrkchain", "beacon", "stream"} {
+		ctor := w.LookupFunc("x/" + m + "/types.NewGenesisState")
+		if ctor == nil {
+			r.Undecided("A7.export-fields", m+"|ctor", "", "types.NewGenesisState exists", "not found")
+			continue
+		}
+		// field <- parameter index, from the constructor's own stores
+		fieldOfParam := map[int]string{}
+		for _, b := range ctor.Blocks {
+			for _, in := range b.Instrs {
+				st, ok := in.(*ssa.Store)
+				if !ok {
+					continue
+				}
+				fa, ok := st.Addr.(*ssa.FieldAddr)
+				if !ok {
+					continue
+				}
+				for i, p := range ctor.Params {
+					if st.Val == ssa.Value(p) {
+						fieldOfParam[i] = ir.FieldName(fa.X.Type(), fa.Field)
+					}
+				}
+			}
+		}
+		secHigh := ""
+		for _, rm := range recMods {
+			if rm.M == m {
+				secHigh = rm.SecHigh
+			}
+		}
+		n := 0
+		for _, root := range w.Roots["EXPORTGEN:"+m] {
+			for f := range w.Reachable([]*ssa.Function{root}) {
+				if ir.ModuleOf(f) != m {
+					continue
+				}
+				for _, b := range f.Blocks {
+					for _, in := range b.Instrs {
+						call, ok := in.(*ssa.Call)
+						if !ok || call.Common().StaticCallee() != ctor {
+							continue
+						}
+						for i, a := range call.Common().Args {
+							field := fieldOfParam[i]
+							e := w.Expand(w.ExprOf(a), 3)
+							secs := map[string]bool{}
+							e.Walk(func(x *ir.Expr) bool {
+								if x.Op == "state" {
+									secs[x.Name] = true
+								}
+								return true
+							})
+							switch {
+							case field == "Params" && !onlyStartID:
+								n++
+								r.Require(secs[secParams(m)] && len(secs) == 1, "A7.export-fields", m+"|GenesisState.Params", pos(c, in), "exported Params are the stored module params", e.String())
+							case strings.HasPrefix(field, "Starting"):
+								n++
+								okv := secs[secHigh] && len(secs) == 1
+								for _, alt := range e.Alts() {
+									if alt.Op == "const" {
+										continue
+									}
+									if !alt.Any(func(x *ir.Expr) bool { return x.Op == "state" && x.Name == secHigh }) {
+										okv = false
+									}
+								}
+								r.Require(okv, rule, m+"|GenesisState."+field, pos(c, in), "the exported starting id is the stored id counter (the next unused id), so that import never re-issues an id", field+" = "+e.String())
+							}
+						}
+					}
+				}
+			}
+		}
+		fl := map[string]int{"wrkchain": 4, "beacon": 4, "stream": 1}
+		if onlyStartID {
+			fl = map[string]int{"wrkchain": 2, "beacon": 2, "stream": 0}
+		}
+		r.Floor("NewGenesisState arguments checked on the "+m+" export route", n, fl[m])
+	}
 }
